@@ -231,6 +231,7 @@ func resolveHook(h *clientHook) *clientHook {
 			return h
 		}
 		h.mu.Unlock()
+		verifYield("resolveHook")
 		h = r
 		if h == nil {
 			return nil
